@@ -240,6 +240,13 @@ class RLX(Domain):
     def floor(self, x): return self._toint("floor", x)
     def ceil(self, x): return self._toint("ceil", x)
 
+    def round_decimals(self, x, nd):
+        """round(x, nd): the float nearest to k/10^nd where k is x*10^nd rounded half-even (Python rounds the exact value)."""
+        x = self.to_float(self.lift(x))
+        k = self.round_half_even(V("float", x.t * (10 ** nd)))
+        exact = z3.ToReal(k.t) / (10 ** nd)
+        return V("float", self._round(("round_decimals", x.t.get_id(), nd), exact))
+
     def round_half_even(self, x):
         x = self.lift(x)
         if x.kind == "int":
@@ -445,6 +452,12 @@ def ev_call(node, env):
         return d.ceil(args[0])
     if name == "round" and len(args) == 1:
         return d.round_half_even(args[0])
+    if name == "round" and len(args) == 2 and hasattr(d, "round_decimals"):
+        nd = args[1].t
+        nd = nd if isinstance(nd, int) else (nd.as_long() if z3.is_int_value(nd) else None)
+        if nd is None or not (0 <= nd <= 15):
+            raise Unsupported("round(x, n) with a non-constant n")
+        return d.round_decimals(args[0], nd)
     if name == "abs":
         return d.abs(args[0])
     if name in ("max", "min"):
